@@ -11,6 +11,7 @@ pub mod diagn {
     pub struct Report { _p: u8 }
     impl Report {
         pub uninterp spec fn msgs(&self) -> nat;
+        pub uninterp spec fn errors(&self) -> nat;
         pub uninterp spec fn parents(&self) -> nat;
     }
     #[verifier::external_body]
